@@ -49,10 +49,11 @@ const (
 	c19AllocFactor = 24
 	c19AllocConst  = 384 << 10
 	c19ChildMemory = 3 << 30 // RLIMIT_AS of the child
+	c19AllocPerReply = 512 << 10
 )
 
 type c19Case struct {
-	Decoder  string `json:"decoder"` // format | archive | index | message | httpput
+	Decoder  string `json:"decoder"` // format | archive | index | message | httpput | server | client
 	Digest   string `json:"digest,omitempty"`
 	InputHex string `json:"input_hex"`
 	Gen      string `json:"generator"`
@@ -67,6 +68,8 @@ type c19Out struct {
 	Items  []string `json:"items"`
 	Alloc  uint64   `json:"alloc"`
 	Calls  int      `json:"calls"`
+	// seen but not judged (outside the property): e.g. a CHUNK payload whose zstd frame declares a large size
+	Observed string `json:"observed,omitempty"`
 }
 
 // ---------- child ----------
@@ -282,6 +285,8 @@ func c19RunOne(c *c19Case) *c19Out {
 		} else {
 			out.Status, out.Err = "err", strconv.Itoa(rec.Code)
 		}
+	case "server", "client":
+		c19RunProto(c, in, out, &m)
 	default:
 		out.Status, out.Err = "err", "unknown decoder"
 	}
@@ -310,6 +315,7 @@ func runC19Child(a vh.Args, o *vh.Oracle, r *vh.Result) error {
 	// warm up lazily initialised runtime/library state so that it is not charged to the first case
 	c19RunOne(&c19Case{Decoder: "format", InputHex: "00"})
 	c19RunOne(&c19Case{Decoder: "httpput", Digest: "sha256", InputHex: "00"})
+	c19ProtoWarmUp() // the zstd encoder/decoder set themselves up on first use
 	for i, c := range cases {
 		fmt.Fprintf(f, "start %d\n", i)
 		out := c19RunOne(c)
@@ -489,6 +495,9 @@ func c19Evaluate(o *vh.Oracle, r *vh.Result, c *c19Case) error {
 	}
 	st := strings.SplitN(c.Impl.Status, ":", 2)[0]
 	r.Dist("result:" + st)
+	if c.Impl.Observed != "" {
+		r.Dist("observed:" + c.Impl.Observed)
+	}
 	if len(r.Samples) < 5 && len(in) > 0 {
 		r.Sample(map[string]interface{}{"decoder": c.Decoder, "generator": c.Gen, "input_len": len(in), "status": c.Impl.Status, "items": len(c.Impl.Items), "alloc": c.Impl.Alloc})
 	}
@@ -499,6 +508,10 @@ func c19Evaluate(o *vh.Oracle, r *vh.Result, c *c19Case) error {
 		return nil
 	}
 	bound := uint64(c19AllocFactor*len(in) + c19AllocConst)
+	if c.Decoder == "server" {
+		// serving a chunk compresses it (zstd EncodeAll): work per reply sent, not per input byte
+		bound += uint64(len(c.Impl.Items)) * c19AllocPerReply
+	}
 	if c.Impl.Alloc > bound {
 		r.Fail("predicate", c.Decoder+"/allocation", fmt.Sprintf("%s decoder allocated %d bytes for %d bytes of input (bound %d; %s)", c.Decoder, c.Impl.Alloc, len(in), bound, c.Gen), c)
 	}
@@ -515,6 +528,10 @@ func c19Evaluate(o *vh.Oracle, r *vh.Result, c *c19Case) error {
 		ans, err = o.Call("c19.archive", vh.Hex(in))
 	case "message":
 		ans, err = o.Call("c19.msgs", vh.Hex(in))
+	case "server":
+		ans, err = o.Call("c19.serve", c19ProtoStoreIDs(), vh.Hex(in))
+	case "client":
+		ans, err = o.Call("c19.client", vh.Hex(in))
 	case "index", "httpput":
 		ans, err = o.Call("c04.decode", c.Digest, vh.Hex(in))
 		if err == nil {
@@ -564,7 +581,7 @@ func c19Evaluate(o *vh.Oracle, r *vh.Result, c *c19Case) error {
 		}
 	}
 	// the model's ghost counter against the measurement: the Go cost of what the model counts is a small multiple
-	if c.Impl.Alloc > 8*malloc+uint64(c19AllocFactor*len(in))+c19AllocConst {
+	if c.Impl.Alloc > 8*malloc+bound {
 		r.Fail("corr", "corr:C19/"+c.Decoder+"-alloc", fmt.Sprintf("measured %d bytes, model counts %d", c.Impl.Alloc, malloc), c)
 	}
 	return nil
@@ -911,6 +928,8 @@ func c19Generate(a vh.Args, rng *vh.Rand) []*c19Case {
 	}
 	everyDecoder("empty", nil)
 	add("httpput", "empty", nil)
+	// 4. the protocol endpoints
+	c19ProtoCases(rng, thorough, add)
 	return cases
 }
 
